@@ -59,6 +59,36 @@ pub trait OpCase: Clone + Send + Sync {
     fn judge(&self, ins: &[Vec<F>], outs: &[Vec<F>]) -> Judgement;
 }
 
+/// Anything the explorer can run: a case that can build a `MockProver` of its circuit.
+pub trait Runnable: Clone + Send + Sync {
+    fn r_key(&self) -> String;
+    fn r_op(&self) -> String;
+    fn r_expect_sat(&self) -> bool;
+    fn r_judge(&self, ins: &[Vec<F>], outs: &[Vec<F>]) -> Judgement;
+    /// Synthesises the circuit with the (already installed) tamper plan.
+    fn r_mock(&self, k: u32) -> Result<MockProver<F>, Error>;
+}
+
+impl<C: OpCase> Runnable for C {
+    fn r_key(&self) -> String {
+        self.key()
+    }
+    fn r_op(&self) -> String {
+        self.op()
+    }
+    fn r_expect_sat(&self) -> bool {
+        self.expect_sat()
+    }
+    fn r_judge(&self, ins: &[Vec<F>], outs: &[Vec<F>]) -> Judgement {
+        self.judge(ins, outs)
+    }
+    fn r_mock(&self, k: u32) -> Result<MockProver<F>, Error> {
+        let rel = OpRel(self.clone());
+        let circuit = MidnightCircuit::new(&rel, Value::known(()), Value::known(()), Some(self.max_bit_len()));
+        MockProver::run(k, &circuit, vec![vec![], vec![]])
+    }
+}
+
 // ---------------------------------------------------------------------------------------------
 // exposure log (thread-local: `Relation::circuit` has no side channel)
 // ---------------------------------------------------------------------------------------------
@@ -79,11 +109,12 @@ thread_local! {
 pub struct Exposer;
 
 impl Exposer {
-    fn expose<T, CH, L>(&self, is_out: bool, chip: &CH, std: &ZkStdLib, layouter: &mut L, x: &T) -> Result<(), Error>
+    fn expose<T, CH, N, L>(&self, is_out: bool, chip: &CH, std: &N, layouter: &mut L, x: &T) -> Result<(), Error>
     where
         L: Layouter<F>,
         T: Instantiable<F>,
         CH: PublicInputInstructions<F, T>,
+        N: PublicInputInstructions<F, AssignedNative<F>>,
     {
         let cells: Vec<AssignedNative<F>> = chip.as_public_input(layouter, x)?;
         let mut vals = vec![];
@@ -110,35 +141,37 @@ impl Exposer {
         Ok(())
     }
     /// Expose an input value through `chip`'s in-circuit public-input encoding.
-    pub fn input_with<T, CH, L>(&self, chip: &CH, std: &ZkStdLib, layouter: &mut L, x: &T) -> Result<(), Error>
+    pub fn input_with<T, CH, N, L>(&self, chip: &CH, std: &N, layouter: &mut L, x: &T) -> Result<(), Error>
     where
         L: Layouter<F>,
         T: Instantiable<F>,
         CH: PublicInputInstructions<F, T>,
+        N: PublicInputInstructions<F, AssignedNative<F>>,
     {
         self.expose(false, chip, std, layouter, x)
     }
-    pub fn output_with<T, CH, L>(&self, chip: &CH, std: &ZkStdLib, layouter: &mut L, x: &T) -> Result<(), Error>
+    pub fn output_with<T, CH, N, L>(&self, chip: &CH, std: &N, layouter: &mut L, x: &T) -> Result<(), Error>
     where
         L: Layouter<F>,
         T: Instantiable<F>,
         CH: PublicInputInstructions<F, T>,
+        N: PublicInputInstructions<F, AssignedNative<F>>,
     {
         self.expose(true, chip, std, layouter, x)
     }
-    pub fn input<T, L>(&self, std: &ZkStdLib, layouter: &mut L, x: &T) -> Result<(), Error>
+    pub fn input<T, N, L>(&self, std: &N, layouter: &mut L, x: &T) -> Result<(), Error>
     where
         L: Layouter<F>,
         T: Instantiable<F>,
-        ZkStdLib: PublicInputInstructions<F, T>,
+        N: PublicInputInstructions<F, T> + PublicInputInstructions<F, AssignedNative<F>>,
     {
         self.expose(false, std, std, layouter, x)
     }
-    pub fn output<T, L>(&self, std: &ZkStdLib, layouter: &mut L, x: &T) -> Result<(), Error>
+    pub fn output<T, N, L>(&self, std: &N, layouter: &mut L, x: &T) -> Result<(), Error>
     where
         L: Layouter<F>,
         T: Instantiable<F>,
-        ZkStdLib: PublicInputInstructions<F, T>,
+        N: PublicInputInstructions<F, T> + PublicInputInstructions<F, AssignedNative<F>>,
     {
         self.expose(true, std, std, layouter, x)
     }
@@ -225,14 +258,10 @@ fn summarize(errs: &[midnight_proofs::dev::VerifyFailure]) -> String {
 }
 
 /// One synthesis of the case under a tamper plan, with the instance set to the exposed vector.
-pub fn run_once<C: OpCase>(case: &C, k: u32, plan: Vec<(u64, Fault, Mode)>, keep_prover: bool) -> RunOut {
+pub fn run_once<C: Runnable>(case: &C, k: u32, plan: Vec<(u64, Fault, Mode)>, keep_prover: bool) -> RunOut {
     EXPO.with(|e| *e.borrow_mut() = ExpoLog::default());
     verif::set_plan(plan);
-    let rel = OpRel(case.clone());
-    let r = catch(|| {
-        let circuit = MidnightCircuit::new(&rel, Value::known(()), Value::known(()), Some(case.max_bit_len()));
-        MockProver::run(k, &circuit, vec![vec![], vec![]])
-    });
+    let r = catch(|| case.r_mock(k));
     let (n_assign, untamperable) = verif::counters();
     let applied = verif::applied();
     verif::reset();
@@ -329,13 +358,13 @@ pub struct HonestReport {
     pub exposed: usize,
 }
 
-fn viol_key(case: &impl OpCase, what: &str) -> String {
-    format!("{}:{what}", case.op())
+fn viol_key(case: &impl Runnable, what: &str) -> String {
+    format!("{}:{what}", case.r_op())
 }
 
 /// 0 deviations + instance binding + exposed-value lies. Returns the number of advice
 /// assignments (the index space of the 1-deviation exploration).
-pub fn explore_honest<C: OpCase>(case: &C, k: u32, out: &mut CaseOut) -> HonestReport {
+pub fn explore_honest<C: Runnable>(case: &C, k: u32, out: &mut CaseOut) -> HonestReport {
     let mut run = run_once(case, k, vec![], true);
     let rep = HonestReport {
         outcome: run.outcome.clone(),
@@ -343,18 +372,18 @@ pub fn explore_honest<C: OpCase>(case: &C, k: u32, out: &mut CaseOut) -> HonestR
         untamperable: run.untamperable,
         exposed: run.flat.len(),
     };
-    let detail = || json!({"case": case.key()});
+    let detail = || json!({"case": case.r_key()});
     out.eval(&format!("honest:{}", run.outcome.name()), true);
-    match (&run.outcome, case.expect_sat()) {
+    match (&run.outcome, case.r_expect_sat()) {
         (Outcome::Sat, true) => {
-            if let Judgement::Wrong(w) = case.judge(&run.ins, &run.outs) {
+            if let Judgement::Wrong(w) = case.r_judge(&run.ins, &run.outs) {
                 out.viol(Viol::new(viol_key(case, "honest-result-wrong"), format!("honest circuit is satisfied but its exposed result contradicts the reference: {w}"), detail()));
                 return rep;
             }
         }
         (Outcome::Sat, false) => {
             // an out-of-domain input was accepted: only fine if the reference still calls it valid
-            if let Judgement::Wrong(w) = case.judge(&run.ins, &run.outs) {
+            if let Judgement::Wrong(w) = case.r_judge(&run.ins, &run.outs) {
                 out.viol(Viol::new(viol_key(case, "out-of-domain-accepted"), format!("input outside the documented domain is accepted: {w}"), detail()));
             }
             return rep;
@@ -451,7 +480,7 @@ pub fn explore_honest<C: OpCase>(case: &C, k: u32, out: &mut CaseOut) -> HonestR
                         }
                     }
                     let (ins, outs) = run.unflatten(&flat);
-                    match case.judge(&ins, &outs) {
+                    match case.r_judge(&ins, &outs) {
                         Judgement::Holds => out.count("cycle-lie:accepted-benign", 1),
                         Judgement::Wrong(w) => out.viol(Viol::new(
                             viol_key(case, "exposed-value-not-constrained"),
@@ -467,7 +496,7 @@ pub fn explore_honest<C: OpCase>(case: &C, k: u32, out: &mut CaseOut) -> HonestR
 }
 
 /// 1 deviation, propagate mode, for the assignment indices `idxs`.
-pub fn explore_faults<C: OpCase>(case: &C, k: u32, idxs: &[u64], faults: &[(&'static str, Fault)], out: &mut CaseOut) {
+pub fn explore_faults<C: Runnable>(case: &C, k: u32, idxs: &[u64], faults: &[(&'static str, Fault)], out: &mut CaseOut) {
     for &idx in idxs {
         for (fname, fault) in faults {
             let run = run_once(case, k, vec![(idx, fault.clone(), Mode::Propagate)], false);
@@ -486,7 +515,7 @@ pub fn explore_faults<C: OpCase>(case: &C, k: u32, idxs: &[u64], faults: &[(&'st
             }
             out.eval(&format!("fault:{}", run.outcome.name()), true);
             if run.outcome == Outcome::Sat {
-                match case.judge(&run.ins, &run.outs) {
+                match case.r_judge(&run.ins, &run.outs) {
                     Judgement::Holds => out.count("fault:accepted-benign", 1),
                     Judgement::Wrong(w) => {
                         let a = &run.applied[0];
@@ -496,7 +525,7 @@ pub fn explore_faults<C: OpCase>(case: &C, k: u32, idxs: &[u64], faults: &[(&'st
                                 "advice assignment #{idx} (column {}, region offset {}) replaced by fault {fname}: circuit still satisfied although {w}",
                                 a.column, a.offset
                             ),
-                            json!({"case": case.key(), "assignment_index": idx, "fault": fname}),
+                            json!({"case": case.r_key(), "assignment_index": idx, "fault": fname}),
                         ));
                     }
                 }
@@ -507,7 +536,7 @@ pub fn explore_faults<C: OpCase>(case: &C, k: u32, idxs: &[u64], faults: &[(&'st
 
 /// 2 deviations, propagate mode: every pair of assignment indices (i < j) taken from `pairs`,
 /// with every combination of the reduced fault set.
-pub fn explore_pairs<C: OpCase>(case: &C, k: u32, pairs: &[(u64, u64)], faults: &[(&'static str, Fault)], out: &mut CaseOut) {
+pub fn explore_pairs<C: Runnable>(case: &C, k: u32, pairs: &[(u64, u64)], faults: &[(&'static str, Fault)], out: &mut CaseOut) {
     for &(i, j) in pairs {
         for (fa_name, fa) in faults {
             for (fb_name, fb) in faults {
@@ -519,16 +548,86 @@ pub fn explore_pairs<C: OpCase>(case: &C, k: u32, pairs: &[(u64, u64)], faults: 
                 }
                 out.eval(&format!("pair:{}", run.outcome.name()), true);
                 if run.outcome == Outcome::Sat {
-                    match case.judge(&run.ins, &run.outs) {
+                    match case.r_judge(&run.ins, &run.outs) {
                         Judgement::Holds => out.count("pair:accepted-benign", 1),
                         Judgement::Wrong(w) => out.viol(Viol::new(
                             viol_key(case, "unsound-under-2-deviations"),
                             format!("advice assignments #{i} ({fa_name}) and #{j} ({fb_name}) replaced: circuit still satisfied although {w}"),
-                            json!({"case": case.key(), "assignment_indices": [i, j], "faults": [fa_name, fb_name]}),
+                            json!({"case": case.r_key(), "assignment_indices": [i, j], "faults": [fa_name, fb_name]}),
                         )),
                     }
                 }
             }
         }
     }
+}
+
+// ---------------------------------------------------------------------------------------------
+// FromScratch front-end: chips that are not reachable through ZkStdLib
+// ---------------------------------------------------------------------------------------------
+
+/// A case over a chip configured "from scratch" (feature `testing` of midnight-circuits). The
+/// chip must be able to expose native cells as public inputs.
+pub trait ScratchCase: Clone + Send + Sync {
+    type Chip: midnight_circuits::testing_utils::FromScratch<F> + PublicInputInstructions<F, AssignedNative<F>>;
+    fn key(&self) -> String;
+    fn op(&self) -> String;
+    fn expect_sat(&self) -> bool;
+    fn judge(&self, ins: &[Vec<F>], outs: &[Vec<F>]) -> Judgement;
+    fn synth<L: Layouter<F>>(&self, chip: &Self::Chip, layouter: &mut L, ex: &Exposer) -> Result<(), Error>;
+}
+
+#[derive(Clone)]
+pub struct Scratch<C: ScratchCase>(pub C);
+
+pub struct ScratchCircuit<C: ScratchCase>(pub C);
+
+impl<C: ScratchCase> midnight_proofs::plonk::Circuit<F> for ScratchCircuit<C> {
+    type Config = <C::Chip as midnight_circuits::testing_utils::FromScratch<F>>::Config;
+    type FloorPlanner = midnight_proofs::circuit::SimpleFloorPlanner;
+    type Params = ();
+
+    fn without_witnesses(&self) -> Self {
+        unreachable!()
+    }
+
+    fn configure(meta: &mut midnight_proofs::plonk::ConstraintSystem<F>) -> Self::Config {
+        let committed = meta.instance_column();
+        let plain = meta.instance_column();
+        <C::Chip as midnight_circuits::testing_utils::FromScratch<F>>::configure_from_scratch(meta, &[committed, plain])
+    }
+
+    fn synthesize(&self, config: Self::Config, mut layouter: impl Layouter<F>) -> Result<(), Error> {
+        use midnight_circuits::testing_utils::FromScratch;
+        let chip = C::Chip::new_from_scratch(&config);
+        self.0.synth(&chip, &mut layouter, &Exposer)?;
+        chip.load_from_scratch(&mut layouter)
+    }
+}
+
+impl<C: ScratchCase> Runnable for Scratch<C> {
+    fn r_key(&self) -> String {
+        self.0.key()
+    }
+    fn r_op(&self) -> String {
+        self.0.op()
+    }
+    fn r_expect_sat(&self) -> bool {
+        self.0.expect_sat()
+    }
+    fn r_judge(&self, ins: &[Vec<F>], outs: &[Vec<F>]) -> Judgement {
+        self.0.judge(ins, outs)
+    }
+    fn r_mock(&self, k: u32) -> Result<MockProver<F>, Error> {
+        MockProver::run(k, &ScratchCircuit(self.0.clone()), vec![vec![], vec![]])
+    }
+}
+
+/// Smallest k in `from..=to` at which the from-scratch circuit of the case synthesises.
+pub fn scratch_min_k<C: ScratchCase>(case: &C, from: u32, to: u32) -> Option<u32> {
+    (from..=to).find(|k| {
+        verif::reset();
+        EXPO.with(|e| *e.borrow_mut() = ExpoLog::default());
+        matches!(catch(|| MockProver::run(*k, &ScratchCircuit(case.clone()), vec![vec![], vec![]]).is_ok()), Ok(true))
+    })
 }
